@@ -637,7 +637,7 @@ def park_wake(ctx):
         if role_ == 'acquire':
             acq[fname].add(s_)
     for fname, wanted, why in (('desync::SchedulerCore::next_to_run', {'Pending'}, 'a scheduled queue is never picked up by a pool thread'),
-                               ('desync::SchedulerCore::claim_pending_queue', {'Pending', 'Idle'}, 'a sync caller woken because its queue can be claimed does not claim it: with no free pool thread it waits for ever')):
+                               ('desync::SchedulerCore::claim_pending_queue', {'Pending'}, 'a sync caller woken because its queue can be claimed does not claim it: with no free pool thread it waits for ever')):
         got = set()
         for f2, ss in acq.items():
             fo = ctx.F.fn(f2)
@@ -707,6 +707,9 @@ def relation_by_root(ctx, keep=()):
     return rel
 
 
+NARROWING_DECIDED_ELSEWHERE = ('desync::SchedulerCore::next_to_run', 'desync::SchedulerCore::claim_pending_queue', SYNC, SYNC_NP, POLL, TRY_SYNC)
+
+
 def tr_base(ctx):
     """TR-base: the transition relation extracted from each protocol function is the reviewed one (dsa/tr_baseline.json): no transition was
     added (a state handled in a new way) and none disappeared (a state no longer handled).  Regression rule: the relation of the pinned tree
@@ -740,6 +743,11 @@ def tr_base(ctx):
             if widened and not added and not gone:
                 out.append(ok('TR-base', key, '%d transition(s) as reviewed; also claims from %s (an unowned state: decided by PA-excl and the TOK rules)' % (len(b), '/'.join(sorted(set(a for a, _, _ in widened)))), fn=root))
                 continue
+        # a claimer that no longer claims from one of its states: exclusion cannot suffer, and whether each claimer still claims what it exists
+        # for is asked of every one of them by name (PARK-wake for next_to_run and claim_pending_queue, TR-defer for sync, sync_no_panic and
+        # SchedulerFuture::poll, TR-sibling for try_sync)
+        if root in NARROWING_DECIDED_ELSEWHERE:
+            gone = [x for x in gone if not (x[2] == 'acquire' and any(y[2] == 'acquire' for y in c))]
         # a waker (or any non-runner) that used to hand a parked queue back as Idle - leaving it to reschedule_queue to mark it Pending - now
         # marks it Pending itself: the same hand-back, and what a Pending write owes (the schedule entry, the thread request) is TOK-pending's
         # question, what a woken queue owes the blocked sync callers is PARK-wake's and QD-waiters'
